@@ -26,7 +26,7 @@ RULE = ("correspondence: ecdsa_truncate over 17 curve orders + small/odd-sized/n
         "bit length 2..72 and the large orders x every digest length 1..baselen+3; (r, s) and dG against the independent "
         "affine arithmetic, exhaustive over all d, k in [1,n-1] and e in [0,n+1] on toy curves, structured on named curves; "
         "RSZeroError exactly when r or s is 0; BadDigestError exactly when not allow_truncate and len > baselen.")
-RULE = RULE + E.COUNT_RULE
+RULE = RULE + E.CALL_RULE + E.COUNT_RULE
 ASSUMPTIONS = ["digests are non-empty (an empty digest raises ValueError on both sides; corresponded, not claimed)",
                "with allow_truncate=False and baselen >= len(digest) but 8*len > bitlen(n) (non-byte-aligned orders) the "
                "property fixes no value; the code uses the whole digest as the integer (corresponded with the model only)",
@@ -324,7 +324,10 @@ def case_sign_digest(i):
     dgo = E.wrap_bytes(dg, i.get("container"))
     fl = E.flag_obj(i)
     sk = E.signing_key(cv, d)
-    if i.get("call") == "positional":
+    if i.get("call") == "defaults":
+        # every optional argument but the nonce omitted: sigencode=sigencode_string, allow_truncate=False (i["allow_truncate"] is False)
+        got = E.call(lambda: util.sigdecode_string(sk.sign_digest(dgo, k=k), n))
+    elif i.get("call") == "positional":
         # documented order: sign_digest(self, digest, entropy=None, sigencode=sigencode_string, k=None, allow_truncate=False)
         got = E.call(lambda: util.sigdecode_string(sk.sign_digest(dgo, None, util.sigencode_string, k, fl), n))
     else:
@@ -342,6 +345,86 @@ def case_sign_digest(i):
     return None if ok else {"observed": list(got[1]) if got[0] == "ok" else got[2], "expected": want}
 
 
+def case_sign_data(i):
+    """SigningKey.sign(data, k=k, hashfunc=H, allow_truncate=True): the standard (r, s) for e = leftmost bits of H(data), and
+    RSZeroError - not a signature made with another nonce - when the CALLER-SUPPLIED k gives r = 0 or s = 0"""
+    from ecdsa import util
+    cv, cp, _ = E.resolve_curve(i["curve"])
+    p, a, G, n = cp
+    d, k, data, H = i["d"], i["k"], bytes.fromhex(i["data"]), E.HASHES[i["hash"]]
+    e = leftmost_bits(H(data).digest(), bitlen(n))
+    exp = E.ref_sign(cp, d, e, k)
+    sk = E.signing_key(cv, d, H)
+    if i.get("call") == "defaults":
+        got = E.call(lambda: util.sigdecode_string(sk.sign(data, k=k), n))        # hashfunc = the key's, allow_truncate=True
+    else:
+        got = E.call(lambda: util.sigdecode_string(sk.sign(data, hashfunc=H, k=k, allow_truncate=True), n))
+    if exp[0] == "rszero":
+        ok, want = (got[0] == "err" and got[2] == "RSZeroError"), "RSZeroError"
+    else:
+        ok, want = (got[0] == "ok" and tuple(got[1]) == exp[1:]), list(exp[1:])
+    return None if ok else {"observed": list(got[1]) if got[0] == "ok" else got[2], "expected": want}
+
+
+def case_seq(i):
+    """call SEQUENCE on ONE SigningKey (and its Private_key): each call must give what a fresh key gives"""
+    from ecdsa import util
+    cv, cp, _ = E.resolve_curve(i["curve"])
+    d = i["d"]
+    H = E.HASHES[i.get("hash", "sha1")]
+
+    def mk(c):
+        kind = c[0]
+        if kind == "sign_digest":
+            _, dg, k, allow = c
+            return lambda sk: sk.sign_digest(bytes.fromhex(dg), sigencode=util.sigencode_string, k=k, allow_truncate=allow)
+        if kind == "sign":
+            _, data, k, allow = c
+            return lambda sk: sk.sign(bytes.fromhex(data), hashfunc=H, k=k, allow_truncate=allow)
+        if kind == "sign_number":
+            _, e, k = c
+            return lambda sk: sk.sign_number(e, k=k)
+        if kind == "sign_digest_deterministic":
+            _, dg, allow = c
+            return lambda sk: sk.sign_digest_deterministic(bytes.fromhex(dg), hashfunc=H, allow_truncate=allow)
+        if kind == "privkey.sign":
+            _, e, k = c
+            return lambda sk: (lambda sg: (sg.r, sg.s))(sk.privkey.sign(e, k))
+        if kind == "pubkey":
+            return lambda sk: sk.verifying_key.to_string()
+        raise ValueError(kind)
+    return E.run_sequence(E.signing_key(cv, d, H), lambda: E.signing_key(cv, d, H), [mk(c) for c in i["calls"]])
+
+
+def seq_cases(rng, spec, n, baselen, count):
+    """[(tag, case)]: same digest with the flags in both orders, different digests interleaved, over-long digests, mixed entry points"""
+    out = []
+    for _ in range(count):
+        d = rng.randrange(1, n)
+        ks = [rng.randrange(1, n) for _ in range(3)]
+        short = bytes(rng.randrange(256) for _ in range(max(1, baselen - 1))).hex()
+        exact = bytes(rng.randrange(256) for _ in range(baselen)).hex()
+        longd = bytes(rng.randrange(256) for _ in range(baselen + 1 + rng.randrange(3))).hex()
+        long2 = bytes(rng.randrange(256) for _ in range(baselen + 4)).hex()
+        seqs = [
+            ("same digest, allow then strict", [["sign_digest", longd, ks[0], True], ["sign_digest", longd, ks[0], False]]),
+            ("same digest, strict then allow", [["sign_digest", longd, ks[0], False], ["sign_digest", longd, ks[0], True]]),
+            ("same exact-length digest, both orders", [["sign_digest", exact, ks[1], True], ["sign_digest", exact, ks[1], False],
+                                                       ["sign_digest", exact, ks[2], True]]),
+            ("digests interleaved", [["sign_digest", longd, ks[0], True], ["sign_digest", long2, ks[0], True], ["sign_digest", longd, ks[1], False],
+                                     ["sign_digest", short, ks[1], False], ["sign_digest", long2, ks[2], True], ["sign_digest", short, ks[2], True]]),
+            ("mixed entry points", [["sign", longd, ks[0], True], ["sign_digest", longd, ks[0], True], ["sign_number", rng.randrange(n), ks[1]],
+                                    ["sign_digest_deterministic", exact, True], ["sign_digest_deterministic", exact, False],
+                                    ["sign_digest_deterministic", longd, True], ["privkey.sign", rng.randrange(n), ks[2]], ["pubkey"],
+                                    ["sign", longd, ks[0], True], ["sign", short, ks[0], False]]),
+            ("same nonce, different hashes", [["sign_number", 0, ks[0]], ["sign_number", n, ks[0]], ["sign_number", 1, ks[0]],
+                                              ["privkey.sign", n + 1, ks[0] + n], ["privkey.sign", 1, ks[0]]]),
+        ]
+        for tag, calls in seqs:
+            out.append(("sequence on one SigningKey: " + tag, {"kind": "seq", "curve": spec, "d": d, "calls": calls}))
+    return out
+
+
 def case_f14(i):
     """F14 witness: the point at infinity offered as a public point is refused with the documented exceptions"""
     from ecdsa import ecdsa as ecmod, ellipticcurve
@@ -354,7 +437,7 @@ def case_f14(i):
     return None if obs == want else {"observed": obs, "expected": want}
 
 
-CASES = {"f14": case_f14, "truncate": case_truncate, "sign": case_sign, "pubkey": case_pubkey, "sign_digest": case_sign_digest}
+CASES = {"sign_data": case_sign_data, "seq": case_seq, "f14": case_f14, "truncate": case_truncate, "sign": case_sign, "pubkey": case_pubkey, "sign_digest": case_sign_digest}
 
 
 def run_case(i):
@@ -465,6 +548,34 @@ def search_toy(ctx):
                         if check(ctx, {"kind": "sign_digest", "curve": spec, "d": d, "k": k, "digest": dg.hex(), "allow_truncate": allow},
                                  "toy sign_digest %s" % ("allow" if allow else "strict")) and E.capped(ctx):
                             return
+                # SigningKey.sign(data, k=k): every (d, k) once with data chosen so that s = 0 (RSZeroError must come out, not a
+                # signature made with another nonce), r = 0 nonces, and ordinary data; also with all defaults
+                pool = {}
+                for j in range(40 * n):
+                    dat = b"m%d" % j
+                    pool.setdefault(leftmost_bits(hashlib.sha1(dat).digest(), bitlen(n)) % n, dat)
+                    if len(pool) == n:
+                        break
+                for dd in range(1, n):
+                    for kk in range(1, n):
+                        rr = t.mult[kk][0] % n
+                        need = (-rr * dd) % n                      # e = -r d  <=>  s = 0
+                        for cls, dat in (("s=0", pool.get(need)), ("ordinary", pool.get((need + 1) % n))):
+                            if dat is None:
+                                continue
+                            for callm in ("keyword", "defaults"):
+                                if check(ctx, {"kind": "sign_data", "curve": spec, "d": dd, "k": kk, "data": dat.hex(), "hash": "sha1",
+                                               "call": callm}, "toy sign(data, k) %s%s %s" % (cls, " r=0" if rr == 0 else "", callm)) and E.capped(ctx):
+                                    return
+                # defaults of sign_digest (allow_truncate=False): 1- and 2-byte digests
+                for dg in dgs[::16] + dgs[-4:]:
+                    if check(ctx, {"kind": "sign_digest", "curve": spec, "d": d, "k": k, "digest": dg.hex(), "allow_truncate": False,
+                                   "call": "defaults"}, "toy sign_digest defaults") and E.capped(ctx):
+                        return
+                # call sequences on one key object
+                for tag, case in seq_cases(rng, spec, n, 1, 2):
+                    if check(ctx, case, "toy " + tag) and E.capped(ctx):
+                        return
                 # positional calls (documented parameter order) and truthy / falsy non-bool truncation flags
                 for dg in dgs[::8] + dgs[-4:]:
                     for allow in (True, False):
@@ -519,6 +630,18 @@ def search_named(ctx):
     # every sign_digest case also as a POSITIONAL call (documented parameter order), some with a non-bool truncation flag
     extra += [(tag + " [positional]", dict(case, call="positional")) for tag, case in cases if case["kind"] == "sign_digest"]
     extra += E.flag_variants(rng, [x for x in cases if x[1]["kind"] == "sign_digest"], 0.3)
+    # defaults (allow_truncate=False, sigencode=sigencode_string), sign(data, k), and call sequences on one key object
+    extra += [(tag + " [defaults]", dict(case, call="defaults")) for tag, case in cases
+              if case["kind"] == "sign_digest" and case["allow_truncate"] is False]
+    for cv in E.named_curves():
+        n = int(cv.order)
+        spec = E.curve_spec(cv)
+        for hname in ("sha1", "sha512"):
+            for callm in ("keyword", "defaults"):
+                extra.append(("named sign(data, k) %s %s" % (hname, callm),
+                              {"kind": "sign_data", "curve": spec, "d": rng.randrange(1, n), "k": rng.randrange(1, n),
+                               "data": bytes(rng.randrange(256) for _ in range(rng.randrange(0, 30))).hex(), "hash": hname, "call": callm}))
+        extra += seq_cases(rng, spec, n, cv.baselen, 1 if q else 4)
     for cv in E.small_named():
         n = int(cv.order)
         for kind in E.CONTAINERS:
